@@ -140,3 +140,17 @@ package libp2pwebtransport
 //@ callsite newEarlyDataSender#0 requires !l.isStaticTLSConf ==> ncalls(SerializedCertHashes, 0) == 1 &&
 //@         arg(SerializedCertHashes, 0, 0) == l.transport.certManager && arg0.WebtransportCerthashes == ret(SerializedCertHashes, 0, 0)
 //@ noframe
+
+// the certificate manager is shared by every listener of the transport: it is stopped by closing the transport, never by
+// closing one listener (rotation must go on for the listeners that stay open)
+//@ func (m *certManager) Close
+//@ prop C18
+//@ trusted
+//@ ensures ghost.stopped(m)
+//@ modifies ghost.stopped(m)
+
+//@ func (l *listener) Close
+//@ prop C18
+//@ loop 0 invariant forall m *certManager :: ghost.stopped(m) == old(ghost.stopped(m))
+//@ ensures forall m *certManager :: ghost.stopped(m) == old(ghost.stopped(m))
+//@ noframe
